@@ -38,8 +38,11 @@ def construction_ranges(rep, adt, inv, allow_unchecked_from=()):
     rep.floor("construction sites of " + name, len(sites), 2)
     okall = True
     done = set()
+    owners = []
     for b, bi, s in sites:
-        root = root_body(prog, b)
+        for root in owners_of(prog, b):
+            owners.append(root)
+    for root in owners:
         if root.id in done:
             continue
         done.add(root.id)
